@@ -377,15 +377,26 @@ func c12Valid(p *ana.Prog, r *ana.Result) {
 				}
 				return false
 			}, true)
-			fresh := boolCallGate(p, cur, "!generatedAt.Add(24h).Before(now)", "(time.Time).Before", func(c *ssa.CallCommon) bool {
-				add, _ := ana.CallOf(c.Args[0])
+			// generatedAt+24h earlier than now (Before / After spelling) must not hold
+			fresh := ana.FindGate(p, cur, "!generatedAt.Add(24h).Before(now)", func(_ ana.Cmp, isCmp bool, v ssa.Value) (bool, bool) {
+				if isCmp {
+					return false, false
+				}
+				earlier, later, _, ok := strictOrder(v)
+				if !ok {
+					return false, false
+				}
+				add, _ := ana.CallOf(earlier)
 				if add == nil || ana.CalleeName(add.Common()) != "(time.Time).Add" {
-					return false
+					return false, false
 				}
 				ch, _ := fieldChain(add.Common().Args[0])
 				k, _ := ana.ConstInt(add.Common().Args[1])
-				return ch == "generatedAt" && k == 24*3600*1e9 && isTimeNow(c.Args[1]) && (nowVal == nil || c.Args[1] == nowVal)
-			}, false)
+				if ch == "generatedAt" && k == 24*3600*1e9 && isTimeNow(later) && (nowVal == nil || later == nowVal) {
+					return true, false
+				}
+				return false, false
+			})
 			checkGates(p, r, "C12.valid", cur, nil, isRet, isGen, "return-without-generating", []gateSpec{
 				{name: "current-key-valid-now", gate: valid},
 				{name: "generated-within-24h", gate: fresh},
